@@ -900,7 +900,7 @@ STORM = 400
 def request_storm(ctx, bench, prog, desc):
     """Logical livelock evidence: within one API call the client has sent READDIR after READDIR on one
     handle, each answered with STATUS, `STORM` times in a row - it is not stopping at end-of-folder."""
-    if prog.at < 0 or prog.steps[prog.at][0] != "listdir_iter":
+    if prog.at < 0 or prog.steps[prog.at][0] not in ("listdir_iter", "iter_interleave"):
         return False
     pk = bench.packets_from(prog.step_p0)
     if len(pk) < 2 * STORM:
